@@ -3,11 +3,13 @@ package c17
 
 import (
 	"bytes"
+	"crypto/sha256"
 	"fmt"
 	"io"
 	"os"
 	"os/exec"
 	"path/filepath"
+	"regexp"
 	"sort"
 	"strings"
 	"time"
@@ -19,6 +21,7 @@ import (
 	"github.com/protobom/protobom/pkg/writer"
 
 	"mcverif/engine"
+	"mcverif/props/c04"
 	"mcverif/rw"
 	"mcverif/sched"
 	"mcverif/vsync"
@@ -74,12 +77,31 @@ func privateDoc(i int) *sbom.Document {
 }
 
 var (
+	richCDX   []string         // BaseCDX with the bom-refs removed, differently sized per thread
+	richDocs  []*sbom.Document // parsed rich documents (thread-private), for writing
 	spdxBytes [4][]byte
 	cdxBytes  [4][]byte
 	tvDocs    = []string{"SPDXVersion: SPDX-2.3\nDataLicense: CC0-1.0\n", "DataLicense: CC0-1.0\nSPDXVersion: SPDX-2.2\n", "# nothing\nSPDXVersion:\n\"SPDX-2.3\"\n"}
 )
 
+var bomRef = regexp.MustCompile(`"bom-ref": "[^"]*",?\s*`)
+
 func prepareInputs() {
+	richCDX, richDocs = nil, nil
+	for i := 0; i < 3; i++ {
+		// strip the references so that every component gets a generated identifier; thread i has i extra components
+		doc := bomRef.ReplaceAllString(c04.BaseCDX, "")
+		extra := strings.Repeat(`{"type": "library", "name": "extra"},`, i)
+		doc = strings.Replace(doc, `"components": [`+"\n  "+`{"type": "library", "name": "c1"`, `"components": [`+extra+`{"type": "library", "name": "c1"`, 1)
+		doc = strings.Replace(doc, `"dependencies": [{"ref": "root", "dependsOn": ["c1", "c2"]}, {"ref": "c1", "dependsOn": []}]`, `"dependencies": []`, 1)
+		richCDX = append(richCDX, doc)
+		d, err := rw.Read([]byte(c04.BaseCDX))
+		if err != nil {
+			panic(err)
+		}
+		d.Metadata.Name = fmt.Sprintf("rich-%d", i)
+		richDocs = append(richDocs, d)
+	}
 	for i := range spdxBytes {
 		b, err := rw.Write(privateDoc(i), formats.SPDX23JSON, 0)
 		if err != nil {
@@ -188,6 +210,34 @@ func alphabet() []call {
 				return "err:" + err.Error()
 			}
 			return fmt.Sprintf("components=%d", bytes.Count(buf.Bytes(), []byte(`"bom-ref": "n`)))
+		}},
+		{"ParseStream(rich cdx, reference-less components)", func(i int) string {
+			d, err := reader.New().ParseStream(strings.NewReader(richCDX[i%len(richCDX)]))
+			if err != nil {
+				return "err:" + err.Error()
+			}
+			var ids []string
+			for _, n := range d.NodeList.Nodes {
+				ids = append(ids, n.Id)
+			}
+			sort.Strings(ids)
+			return strings.Join(ids, ",")
+		}},
+		{"ParseStream(rich spdx)", func(i int) string {
+			d, err := reader.New().ParseStream(strings.NewReader(c04.BaseSPDX))
+			if err != nil {
+				return "err:" + err.Error()
+			}
+			return fmt.Sprintf("nodes=%d edges=%d", len(d.NodeList.Nodes), len(d.NodeList.Edges))
+		}},
+		{"WriteStream(rich, cdx15)", func(i int) string {
+			var buf bytes.Buffer
+			w := writer.New(writer.WithFormat(formats.CDX15JSON))
+			if err := w.WriteStream(richDocs[i%len(richDocs)], nopCloser{&buf}); err != nil {
+				return "err:" + err.Error()
+			}
+			n, _ := rw.NormalizeJSON(buf.Bytes())
+			return fmt.Sprintf("%x", sha256.Sum256([]byte(n)))[:12]
 		}},
 		{"ParseStream(private, cdx15)", func(i int) string {
 			d, err := reader.New().ParseStream(bytes.NewReader(cdxBytes[i]))
